@@ -4,7 +4,7 @@
    methods, all fault sets (EINTR at any wait / epoll_ctl, missing system calls), any wait limit. *)
 From Coq Require Import List ZArith Bool Lia.
 From Ivv Require Import Core.Kernel Core.CoreTypes Core.CoreFd Core.CoreModel Core.Monitors Core.GuardMon Core.CoreSpec
-  Core.CoreInv Core.CoreRel Core.CorePhase2Time Core.CorePhase2Guard Core.CoreExamples.
+  Core.CoreInv Core.CoreRel Core.CorePhase2Time Core.CorePhase2Guard Core.FairMon Core.FairMonProof Core.CoreExamples.
 Import ListNotations.
 Local Open Scope Z_scope.
 
@@ -25,6 +25,21 @@ Theorem C06_calls_allowed_are_made :
   forall sc, wf_scenario sc -> no_code [1101; 1102] (gmon_fails sc (run_scenario sc)).
 Proof. exact core_gmon_guards. Qed.
 Print Assumptions C06_calls_allowed_are_made.
+
+(* "tasks that keep re-registering themselves or each other do not prevent ... timers ... from being serviced": every
+   timer that is registered and due when a kernel wait returns (normally) is run or unregistered before the next
+   kernel wait is entered -- also when that next wait is the zero-timeout poll made because tasks are pending
+   (monitor Core/FairMon.v, clause 605; descriptors and events are covered by 603/707/708) *)
+Theorem C06_timers_serviced :
+  forall sc, wf_scenario sc -> fair_fails (run_scenario sc) = [].
+Proof. exact core_fair. Qed.
+Print Assumptions C06_timers_serviced.
+
+(* non-vacuity of 605: a concrete trace on which the monitor fires (a timer due at the return of wait 1 is still
+   registered when wait 2 is entered), so the clause is not trivially true *)
+Example C06_fairmon_can_fail :
+  fair_fails [TAct (ATmRegAbs 0 5); TWait 1 1 1 0 [] []; TRet (Some 0) [] 7; TWait 2 1 1 0 [] []] = [605].
+Proof. reflexivity. Qed.
 
 (* non-vacuity: a well-formed run on every poll method in which a task registered before iv_main runs once *)
 Example C06_nonvacuous :
